@@ -92,6 +92,8 @@ def gen_case(rng, index, tier):
                 sched=gen_sched(rng), faults=[], cfg=dict(cache=rng.random() < 0.7, twice=rng.random() < 0.3))
     if rng.random() < 0.4:
         case['faults'] = gen_faults(rng, nprocs, gran)
+    elif rng.random() < 0.06:
+        case['calib'] = True   # calibration: real multiprocessing primitives, free scheduling by the kernel (sanity of workloads and stub)
     return case
 
 
@@ -294,9 +296,40 @@ def worker_init():
     import nutils.evaluable, nutils.parallel, nutils.topology, nutils.mesh, nutils.function, nutils.sample  # warm imports before forking cases
 
 
+def run_calibration(case):
+    '''Fault-free families with the REAL multiprocessing primitives and whatever interleaving the kernel produces: results must
+    equal the serial run.  A sanity check of the workloads and of the stub's premise, not a deciding step (its schedule is not controlled).'''
+    import treelog
+    from nutils import parallel
+    with treelog.set(treelog.NullLog()):
+        call_ref, script, trace_codes = make_call(case)
+        try:
+            with parallel.maxprocs(1):
+                ref = ('return', call_ref())
+        except Exception as e:
+            ref = ('raise', f'{type(e).__name__}: {e}'[:300])
+        call = make_call(case)[0]
+        try:
+            with parallel.maxprocs(case['nprocs']):
+                out = ('return', call())
+        except Exception as e:
+            out = ('raise', f'{type(e).__name__}: {e}'[:300])
+    sig = core.sha(['calib', case['prog'], case['nprocs']])
+    res = dict(verdict='pass', vclass=None, detail=None, digest=None, sig=sig, steps=0, fired={}, family=case['prog']['family'], nontrivial=False, probes={'calibration_real_multiprocessing': 1})
+    if ref[0] != out[0]:
+        res.update(verdict='violation', vclass='CAL-outcome-differs', detail=f'real parallel run: {out[0]} {out[1] if out[0] == "raise" else ""}; serial: {ref[0]}')
+    elif ref[0] == 'return':
+        d = _equal(out[1], ref[1], case['kind'] in ('expr', 'nested'))
+        if d:
+            res.update(verdict='violation', vclass='CAL-mismatch', detail=d)
+    return res
+
+
 def run_case(case):
     import treelog
     from nutils import parallel, evaluable
+    if case.get('calib'):
+        return run_calibration(case)
     with treelog.set(treelog.NullLog()), procsim.patched_parallel():
         try:
             call_ref, script, trace_codes = make_call(case)
